@@ -307,8 +307,10 @@ CONC_TRACES = {"parse": ("TraceParse.tla", "TraceParse.cfg"), "values": ("TraceV
 def conc_once(vh, tier, seed):
     racedir = os.path.join(vlib.workdir(), "race_%d" % (int(time.time() * 1000) % 1000000))
     os.makedirs(racedir)
-    g = vlib.run_gen(vh, "conc", tier, seed, shards=1,
-                     extra_env={"GORACE": "log_path=%s/race halt_on_error=0 exitcode=0" % racedir})
+    # the run stops at the first race report (exit code 66): a racy loop over a large array would otherwise produce
+    # hundreds of megabytes of reports and take minutes; a report decides the no-race clause by itself
+    g = vlib.run_gen(vh, "conc", tier, seed, shards=1, halt_rc=66,
+                     extra_env={"GORACE": "log_path=%s/race halt_on_error=1 exitcode=66" % racedir})
     races = []
     for f in sorted(os.listdir(racedir)):
         txt = open(os.path.join(racedir, f)).read()
@@ -325,6 +327,25 @@ def run_conc(pid, tier, seed):
     res = {"r1": r1, "gens": [g], "bads": [], "consumed": 0}
     if "hang" in g:
         res["hang"] = g["hang"]
+        return res
+    if g.get("halted"):
+        if not races:
+            raise Infra("the race-enabled harness exited with the race exit code but left no report:\n" + g["stderr"][-2000:])
+        res["gens"] = []
+        res["cov_race_reports"] = len(races)
+        res["cov_note"] = "the run was stopped by the first data race report; no results were validated in this run"
+        again = []
+        for attempt in range(5):
+            g2, again = conc_once(vh, tier, seed)
+            if again:
+                break
+        if not again:
+            raise Infra("a data race report did not reproduce in 5 further runs:\n" + races[0][:3000])
+        outdir = os.path.join(vlib.VERIF, "out", pid)
+        os.makedirs(outdir, exist_ok=True)
+        path = os.path.join(outdir, "race-report.txt")
+        open(path, "w").write(races[0])
+        res["direct_violations"] = [("data_race", path)]
         return res
     for fam, (tm, cfg) in CONC_TRACES.items():
         files = [f for f in g["files"] if os.path.basename(f).startswith("conc_%s_" % fam)]
@@ -438,7 +459,7 @@ CHECKS.update({
 
 CHECKS.update({
     "C10": {"family": "total", "level": "exploration",
-            "rule": HANDLERS_RULE + "; plus every exported function (33 entry points x nil/reused buffer) on nests of 9999..10^6 in 8 "
+            "rule": HANDLERS_RULE + "; plus every exported function and method (46 entry points, incl. the ValueReader readers on a used reader and its handler methods called directly and handed to the traversal functions on zero and used readers, x nil/reused buffer) on nests of 9999..10^6 in 8 "
                     "array/object mixtures x 6 bottoms x closed/unclosed/over-closed, megabyte runs of 31 single tokens in 9 wrappers, all "
                     "1- and 2-byte inputs over a hostile alphabet, random documents with mutations",
             "technique": "TLA+ wrapping-arithmetic model of the resync range check (R1, with a negative config reproducing the overflow) + totality trace validation of all entry points (R3)",
